@@ -1,5 +1,6 @@
 import VirVerif.Model.Rejection
 import VirVerif.Model.TStub
+import VirVerif.Model.McSize
 import VirVerif.Drv.Proto
 namespace VirVerif.Drv
 open VirVerif
@@ -47,6 +48,17 @@ def takeBatches : Nat → List String → Option (List (List Float × List Float
 
 def rowKey (row : List Float) : String := " ".intercalate ("pdf" :: row.map tokOfF)
 
+/-- Python's `int()` of a non-negative double below 2^64 -/
+def truncNat (x : Float) : Nat := x.toUInt64.toNat
+
+/-- `np.min` / `np.max` of a non-empty list (no NaN) -/
+def minF : List Float → Float
+  | [] => nanF
+  | x :: xs => xs.foldl (fun a b => if b < a then b else a) x
+def maxF : List Float → Float
+  | [] => nanF
+  | x :: xs => xs.foldl (fun a b => if a < b then b else a) x
+
 end C16
 open C16
 
@@ -58,6 +70,7 @@ open C16
 * `tsample <nDim> <k> <m> flatrows…`
 * `ecdf <nDim> <m> flat sample… <q> flat events…`
 * `xhat <nDim> <dim> <g> given… <x>`
+* `c16nmarg <pf> <k> p…` / `c16ncond <pf> <k> p…` / `c16ncdf` → Monte-Carlo sample sizes (Model/McSize.lean)
 * `rej <pdfMode> [stub: <cubeMode> <k> <s1> <c0> <c1> <e0> <e1>] <nDim> <dim> <g> given… <n> <maxIter>
        <xmaxH> <fmaxH> <nb> {<len> xs… <len> ys…}*` -/
 def handleC16 : Handler := fun st toks =>
@@ -122,6 +135,22 @@ def handleC16 : Handler := fun st toks =>
         some ("OK " ++ " ".intercalate (toString events.length :: events.map fun e => toString (ecdfCount sample e)))
       | none => some "ERR parse"
     | none => some "ERR parse"
+  | "c16nmarg" :: pf :: rest =>
+    -- sample size of marginal_icdf(p, dim, precision_factor) for the probabilities p
+    match takeFloats rest with
+    | some (ps, _) =>
+      if ps.isEmpty then some "ERR empty" else
+      let pSmall := McSize.pSmallMarginal (minF ps) (maxF ps)
+      some s!"OK {McSize.marginalN truncNat pSmall (fOfTok pf)}"
+    | none => some "ERR parse"
+  | "c16ncond" :: pf :: rest =>
+    -- sample sizes of conditional_icdf(p, dim, given, precision_factor), one per probability
+    match takeFloats rest with
+    | some (ps, _) =>
+      some ("OK " ++ " ".intercalate (toString ps.length ::
+        ps.map fun p => toString (McSize.condN truncNat 0.5 p (fOfTok pf))))
+    | none => some "ERR parse"
+  | ["c16ncdf"] => some s!"OK {McSize.cdfN}"
   | "xhat" :: nDim :: dim :: rest =>
     match takeFloats rest with
     | some (given, x :: _) =>
